@@ -12,21 +12,35 @@ REPO = "/repo"
 FILES = ["src/mpc/protocol.rs", "src/mpc/faand.rs", "src/ot_core/kos.rs", "src/channel.rs"]
 
 
-def sites(text):
+def sites(text, ops):
     out = []
-    for m in re.finditer(r"return Err\(", text):
-        # statement end: matching parenthesis, then optional `;`
-        i = m.end(); depth = 1
-        while i < len(text) and depth:
-            c = text[i]
-            depth += (c == "(") - (c == ")")
-            i += 1
-        j = i
-        while j < len(text) and text[j] in " \t":
-            j += 1
-        has_semi = j < len(text) and text[j] == ";"
-        end = j + 1 if has_semi else i
-        out.append((m.start(), end, has_semi))
+    if "del" in ops:
+        for m in re.finditer(r"return Err\(", text):
+            i = m.end(); depth = 1
+            while i < len(text) and depth:
+                c = text[i]
+                depth += (c == "(") - (c == ")")
+                i += 1
+            j = i
+            while j < len(text) and text[j] in " \t":
+                j += 1
+            has_semi = j < len(text) and text[j] == ";"
+            end = j + 1 if has_semi else i
+            stmt = text[m.start():end]
+            out.append((m.start(), end, "if false { " + (stmt if has_semi else stmt + ";") + " }", "del"))
+    if "filter" in ops:   # a loop over "every other party" that skips some of them
+        for m in re.finditer(r"\.filter\(\|&?(\w+)\| \*?\1 != (\w+)\)", text):
+            out.append((m.start(), m.end(), ".filter(|%s| *%s > %s)" % (m.group(1), m.group(1), m.group(2)), "filter"))
+    if "assign" in ops:   # accumulation replaced by assignment
+        for m in re.finditer(r" \^= ", text):
+            out.append((m.start(), m.end(), " = ", "assign"))
+    if "and" in ops:      # a disjunction of failure conditions weakened to a conjunction
+        for m in re.finditer(r"\n\s*if [^\n{]*\|\|[^\n{]*\{\n\s*return Err", text):
+            k = text.index("||", m.start())
+            out.append((k, k + 2, "&&", "and"))
+    if "cmp" in ops:      # off-by-one in a comparison that guards a flush / bound
+        for m in re.finditer(r" >= ", text):
+            out.append((m.start(), m.end(), " > ", "cmp"))
     return out
 
 
@@ -38,7 +52,7 @@ def fn_of(text, pos):
 
 
 def run_one(job):
-    f, k, (s, e, semi), text = job
+    f, k, (s, e, repl, kind), text = job
     line = text[:s].count("\n") + 1
     fn = fn_of(text, s)
     # skip test modules
@@ -50,8 +64,7 @@ def run_one(job):
         dst = os.path.join(scratch, "repo")
         shutil.copytree(REPO, dst, ignore=shutil.ignore_patterns("target", ".git"))
         stmt = text[s:e]
-        body = stmt if semi else stmt + ";"
-        mutated = text[:s] + "if false { " + body + " }" + text[e:]
+        mutated = text[:s] + repl + text[e:]
         open(os.path.join(dst, f), "w").write(mutated)
         ann = os.path.join(scratch, "ann")
         env = dict(os.environ, PV_REPO=dst)
@@ -75,7 +88,8 @@ def run_one(job):
             lab = [x for x in fails if x[1].strip()]
             x = (lab or fails)[0]
             first = "%s [%s] %s" % (x[0], x[1][:80], x[2][:60])
-        return (f, line, fn, verdict, stmt.replace("\n", " ")[:70], first)
+        ctx_line = text[text.rfind("\n", 0, s) + 1:text.find("\n", e)].strip()
+        return (f, line, fn, verdict, (kind + ": " + ctx_line.replace("\n", " "))[:90], first)
     finally:
         shutil.rmtree(scratch, ignore_errors=True)
 
@@ -85,11 +99,15 @@ def main():
     j = 2
     if args[:1] == ["-j"]:
         j = int(args[1]); args = args[2:]
+    ops = ["del"]
+    if args[:1] == ["--ops"]:
+        ops = args[1].split(","); args = args[2:]
+    out_name = "SWEEP.txt" if ops == ["del"] else "SWEEP-%s.txt" % "-".join(ops)
     files = args or FILES
     jobs = []
     for f in files:
         text = open(os.path.join(REPO, f)).read()
-        for k, st in enumerate(sites(text)):
+        for k, st in enumerate(sites(text, ops)):
             jobs.append((f, k, st, text))
     res = []
     with concurrent.futures.ThreadPoolExecutor(max_workers=j) as ex:
@@ -97,7 +115,7 @@ def main():
             if r:
                 res.append(r)
                 print("%-12s %s:%d %s  | %s | %s" % (r[3], r[0], r[1], r[2], r[4], r[5]), flush=True)
-    with open(os.path.join(VERIF, "seeded", "SWEEP.txt"), "w") as fh:
+    with open(os.path.join(VERIF, "seeded", out_name), "w") as fh:
         for r in res:
             fh.write("%-17s %s:%d %s | %s | %s\n" % (r[3], r[0], r[1], r[2], r[4], r[5]))
         from collections import Counter
